@@ -268,6 +268,8 @@ def replay(ctx, case):
     if case.get("kind") == "pnlive":
         ctx.case(None, True)
         return pn_live_case(ctx, dict(case, rounds=[dict(r, packets=[tuple(x) for x in r["packets"]], swaps=[tuple(x) for x in r["swaps"]]) for r in case["rounds"]]))
+    if case.get("kind") == "emit":
+        return emit_live_case(ctx, dict(case, ops=[tuple(o) for o in case["ops"]]))
     if case.get("kind") == "pn":
         got = decode_packet_number(case["truncated"], case["bits"], case["expected"])
         if not closest_ok(case["truncated"], case["bits"], case["expected"], got):
@@ -414,6 +416,126 @@ def pn_live_task(ctx, examples, shard):
     run_hypothesis(ctx, body, strat, examples, shard=shard)
 
 
+def emit_live_case(ctx, case):
+    """What a connected endpoint emits while its application writes, pings, changes connection IDs and requests key updates - also a second update
+    before the peer has answered the first - and the peer answers, stays silent, lags a generation behind or updates keys itself: every 1-RTT packet
+    must open for the independent implementation with the keys its Key Phase bit selects (RFC 9001 6: the bit is the parity of the key generation),
+    and the endpoint keeps accepting the peer's packets."""
+    from vlib import endpoints as E, refquic as R
+    from vlib.takeover import Takeover
+
+    role = case["role"]
+    with E.pinned(("c02-emit", role, case["version"])):
+        tk = Takeover(role, client_kw={"original_version": case["version"], "supported_versions": [case["version"]]}, server_kw={"supported_versions": [R.V1, R.V2]})
+        sut = tk.sut
+        X = tk.X
+        seen_gens = set()
+        requests = 0
+        double = False
+        pending_request = False
+        checked = [0]
+        peer_sent = {}  # pn -> generation
+        acked_by_sut = set()
+        bad = []
+
+        def look():
+            for v in tk.collect():
+                if v.ptype != R.PT_ONE_RTT:
+                    continue
+                checked[0] += 1
+                if v.frames is None:
+                    bad.append(("emitted-packet-not-opened-by-reference", "a %d-byte 1-RTT packet the SUT (%s) emitted opens with none of the key generations the reference knows (current %d, next, previous)" % (v.size, role, tk.wire.rings[X].gen)))
+                    continue
+                seen_gens.add(v.key_gen)
+                if v.key_phase != (v.key_gen & 1):
+                    bad.append(("key-phase-bit-does-not-match-keys", "1-RTT packet %d of the SUT (%s) is protected with key generation %d but carries Key Phase bit %d: a receiver selects keys by that bit and cannot open it" % (v.pn, role, v.key_gen, v.key_phase)))
+                for f in v.frames:
+                    if f["name"] == "ack":
+                        for lo, hi in f["acked"]:
+                            acked_by_sut.update(p for p in peer_sent if lo <= p <= hi)
+
+        def peer_send(frames):
+            pn = tk.send_frames(frames)
+            peer_sent[pn] = tk.key_gen
+            return pn
+
+        sid = None
+        for op in case["ops"]:
+            if sut._close_event is not None or bad:
+                break
+            k = op[0]
+            if k == "write":
+                if sid is None:
+                    sid = sut.get_next_available_stream_id()
+                sut.send_stream_data(sid, bytes(op[1]))
+            elif k == "ping":
+                sut.send_ping(len(peer_sent) + 1000)
+            elif k == "change_cid":
+                if sut._peer_cid_available:
+                    sut.change_connection_id()
+            elif k == "key_update":
+                sut.request_key_update()
+                requests += 1
+            elif k == "key_update_twice":
+                sut.request_key_update()
+                look()
+                sut.request_key_update()
+                requests += 2
+                double = True
+            elif k == "peer_answers":
+                # the peer has seen everything the SUT sent: it follows the SUT's key generation and acknowledges
+                tk.key_gen = max(tk.key_gen, tk.wire.rings[X].gen)
+                f = tk.ack_frame([v.pn for v in tk.sut_packets if v.space == "app" and v.pn is not None])
+                peer_send([f] if f else [{"name": "ping"}])
+            elif k == "peer_lags":
+                # ... or has seen nothing recent: a PING with the keys it was using
+                peer_send([{"name": "ping"}])
+            elif k == "peer_key_update":
+                # RFC 9001 6.1/6.2: only when the current generation is in use by both sides and one of its packets has been acknowledged
+                if tk.key_gen == tk.wire.rings[X].gen and any(g == tk.key_gen for p, g in peer_sent.items() if p in acked_by_sut):
+                    tk.key_gen += 1
+                    peer_send([{"name": "ping"}])
+            elif k == "timer":
+                tk.fire_timer(max_wait=2.0)
+            look()
+        # afterwards the peer, caught up, is still understood
+        if sut._close_event is None and not bad:
+            tk.key_gen = max(tk.key_gen, tk.wire.rings[X].gen)
+            for _ in range(3):
+                last = peer_send([{"name": "ping"}])
+                look()
+                for _ in range(3):
+                    if last in acked_by_sut or not tk.fire_timer(max_wait=1.0):
+                        break
+                    look()
+                if last in acked_by_sut:
+                    break
+            if last not in acked_by_sut and sut._close_event is None:
+                bad.append(("peer-packet-after-key-updates-not-accepted", "the SUT (%s) did not acknowledge PING packets protected with key generation %d, the one its own latest packets use" % (role, tk.key_gen)))
+        for sig, detail in bad[:1]:
+            ctx.violation(sig, detail, case)
+        ctx.case(("emit", repr(case)), nontrivial=len(seen_gens) >= 2 and checked[0] >= 5, classes=["emit:" + role, "emit:generations-%d" % min(len(seen_gens), 4)] + (["emit:update-requested-twice-in-a-row"] if double else []) + (["emit:closed"] if sut._close_event is not None else []))
+
+
+def emit_live_task(ctx, examples, shard):
+    from hypothesis import strategies as st
+    from vlib import refquic as R
+    from vlib.harness import run_hypothesis
+
+    op = st.one_of(
+        st.tuples(st.just("write"), st.sampled_from([1, 100, 1200, 5000])),
+        st.sampled_from([("ping",), ("change_cid",), ("key_update",), ("key_update",), ("key_update_twice",), ("peer_answers",), ("peer_answers",), ("peer_lags",), ("peer_key_update",), ("timer",)]),
+    )
+    strat = st.fixed_dictionaries({"kind": st.just("emit"), "role": st.sampled_from(["server", "client"]), "version": st.sampled_from([R.V1, R.V2]), "ops": st.lists(op, min_size=3, max_size=16)})
+
+    def body(ctx, case):
+        emit_live_case(ctx, case)
+        if ctx.want_sample():
+            ctx.sample(case)
+
+    run_hypothesis(ctx, body, strat, examples, shard=shard)
+
+
 def plan(tier, seed):
     q = tier == "quick"
     t = []
@@ -425,6 +547,8 @@ def plan(tier, seed):
     t.append(("pn-random", {"fn": "pnr", "examples": 20000 if q else 400000, "shard": 0}))
     for sh in range(2):
         t.append(("pn-live-%d" % sh, {"fn": "pnlive", "examples": 150 if q else 6000, "shard": sh}))
+    for sh in range(2):
+        t.append(("emit-live-%d" % sh, {"fn": "emit", "examples": 150 if q else 6000, "shard": sh}))
     try:
         from vlib import tamper
 
@@ -445,6 +569,8 @@ def run_task(ctx, name, fn, **kw):
         pn_random(ctx, kw["examples"], kw["shard"])
     elif fn == "pnlive":
         pn_live_task(ctx, kw["examples"], kw["shard"])
+    elif fn == "emit":
+        emit_live_task(ctx, kw["examples"], kw["shard"])
     else:
         from vlib import tamper
 
